@@ -31,6 +31,26 @@ DestAddrs == { <<"ip4", V4a>>, <<"ip6", V6a>>, <<"ip6", M6a>>,
                <<"name", NameBytes(1)>>, <<"name", NameBytes(11)>>, <<"name", NameBytes(255)>>, <<"name", NameBytes(256)>> }
 DestPorts == {0, 1, 255, 256, 443, 65535, 65536, 65537}
 Dests == {Dest(a[1], a[2], p) : a \in DestAddrs, p \in DestPorts}
+\* hosts that are neither a plain IP literal nor an ordinary name (Socks5 header, kind "odd"), as text
+OddTexts == {
+    <<102, 101, 56, 48, 58, 58, 49, 37, 101, 116, 104, 48>>,   \* "fe80::1%eth0"
+    <<102, 101, 56, 48, 58, 58, 100, 101, 97, 100, 58, 98, 101, 101, 102, 37, 49, 50>>,   \* "fe80::dead:beef%12"
+    <<70, 69, 56, 48, 58, 58, 65, 37, 87, 108, 97, 110, 48>>,   \* "FE80::A%Wlan0"
+    <<48, 49, 48, 46, 48, 46, 48, 46, 49>>,   \* "010.0.0.1"
+    <<49, 46, 50, 46, 51>>,   \* "1.2.3"
+    <<49, 46, 50, 46, 51, 46, 52, 46, 53>>,   \* "1.2.3.4.5"
+    <<48, 120, 55, 102, 46, 49>>,   \* "0x7f.1"
+    <<101, 120, 97, 109, 112, 108, 101, 46, 99, 111, 109, 46>>,   \* "example.com."
+    <<58, 58, 102, 102, 102, 102, 58, 49, 46, 50, 46, 51, 46, 52, 37, 49>>,   \* "::ffff:1.2.3.4%1"
+    <<>>    \* ""
+    }
+ZoneTexts == { <<102, 101, 56, 48, 58, 58, 49, 37, 101, 116, 104, 48>>, <<102, 101, 56, 48, 58, 58, 100, 101, 97, 100, 58, 98, 101, 101, 102, 37, 49, 50>> }
+DestSp(k, b, port, sp) == [k |-> k, b |-> b, port |-> port, sp |-> sp]
+\* sp is for the driver only: "upper" = IPv6 literal in upper case, "raw" = host:port joined without brackets
+OddDests == {Dest("odd", t, p) : t \in OddTexts, p \in {443, 65535}}
+            \cup {DestSp("odd", t, 443, "raw") : t \in ZoneTexts}
+            \cup {DestSp("ip6", V6a, 443, "upper"), DestSp("ip6", M6a, 256, "upper")}
+
 Dest1 == Dest("name", NameBytes(11), 443)
 Dest2 == Dest("ip4", V4a, 256)
 Dest3 == Dest("ip6", V6a, 65535)
@@ -70,6 +90,9 @@ Scn(d, a, api, srv) == [dest |-> d, auth |-> a, api |-> api, srv |-> srv]
 
 SweepA == {Scn(d, a, api, <<<<5, 0>>, h>>) : d \in Dests, a \in {NoAuth}, api \in {"DialContext"}, h \in {OkV4(1080)}}
           \cup {Scn(d, Auth(1, 1), "Dial", <<<<5, 2>>, <<1, 0>>, OkName(9, 65535)>>) : d \in Dests}
+          \cup {Scn(d, NoAuth, "DialContext", <<<<5, 0>>, OkV4(1080)>>) : d \in OddDests}
+          \cup {Scn(d, Auth(1, 1), api, <<<<5, 2>>, <<1, 0>>, OkV6(256)>>) : d \in OddDests,
+                                                                         api \in IF Lvl = 1 THEN {"Dial"} ELSE APIs}
           \cup (IF Lvl = 1 THEN {} ELSE
                 {Scn(d, a, api, <<<<5, 0>>, h>>) : d \in Dests, a \in {NoAuth, Auth(255, 255)}, api \in APIs, h \in Happy})
 SweepB == {Scn(Dest1, NoAuth, "DialContext", <<m, OkV4(1080)>>) : m \in MethodReplies}
@@ -96,4 +119,5 @@ Sane == /\ Allowed(c) # {}
         /\ RequestsDecode(c.dest)
         /\ NeverWrongRequest(c)
         /\ OkMeansNamed(c)
+        /\ RequestsAlwaysName(c)
 =============================================================================
